@@ -289,7 +289,7 @@ theorem keys_secure_implies {sigValid : SigOracle} {dnskeys : List (Dnskey × Pr
   split at h
   · cases h
   · obtain ⟨k, hk, hv⟩ := keysLoop_secure h
-    exact ⟨k, mem_filterTagCollisions hk, hv⟩
+    exact ⟨k, (List.mem_filter.1 (mem_filterTagCollisions hk)).1, hv⟩
 
 theorem fresh_secure {sigValid : SigOracle} {r : Request}
     (h : (freshVerdict sigValid r).proof = .secure) :
@@ -298,11 +298,15 @@ theorem fresh_secure {sigValid : SigOracle} {r : Request}
         = .ok (.secure, (freshVerdict sigValid r).adjustedTtl) := by
   unfold freshVerdict at h ⊢
   split at h
-  · rename_i p ttl hv
-    simp only at h
-    subst h
-    exact keys_secure_implies hv
   · cases h
+  · rename_i hz
+    simp only [hz]
+    split at h
+    · rename_i p ttl hv
+      simp only at h
+      subst h
+      exact keys_secure_implies hv
+    · cases h
 
 /-! ### the validation cache: provenance of every verdict 
 
@@ -456,15 +460,15 @@ def AllSecure (Q : Request → Verdict → Prop) : List Request → List (Verdic
   | _, _ => False
 
 /-- lifts a per-step lemma about Secure verdicts to whole histories; `P` relates an earlier request
-to a later one, `C` is a condition on single requests -/
+to a later one, `B` is a condition on the answered request, `C` on the earlier ones -/
 theorem allSecure_of_sound (sigValid : SigOracle) (cfg : CacheConfig)
     (serve : CacheEntry → Request → Option Verdict) (Q : Request → Verdict → Prop)
-    (P : Request → Request → Prop) (C : Request → Prop)
+    (P : Request → Request → Prop) (B C : Request → Prop)
     (hstep : ∀ past r v fresh, StepSound sigValid cfg serve past r v fresh → v.proof = .secure →
-      Bounds r → (∀ r' ∈ past, P r' r ∧ C r') → Q r v)
+      B r → (∀ r' ∈ past, P r' r ∧ C r') → Q r v)
     (past hist : List Request)
     (outs : List (Verdict × Bool)) (hs : SoundFrom sigValid cfg serve past hist outs)
-    (hb : ∀ r ∈ hist, Bounds r ∧ C r)
+    (hb : ∀ r ∈ hist, B r ∧ C r)
     (hpast : ∀ r' ∈ past, C r' ∧ ∀ r ∈ hist, P r' r)
     (hpw : hist.Pairwise P) :
     AllSecure Q hist outs := by
@@ -494,10 +498,16 @@ theorem fresh_secure_isOk {sigValid : SigOracle} {r : Request}
     (h : (freshVerdict sigValid r).proof = .secure) : (freshVerdict sigValid r).isOk = true := by
   unfold freshVerdict at h ⊢
   split
-  · rfl
-  · rename_i hn
-    rw [hn] at h
+  · rename_i hz
+    simp only [hz] at h
     cases h
+  · rename_i hz
+    simp only [hz] at h ⊢
+    split
+    · rfl
+    · rename_i hn
+      rw [hn] at h
+      cases h
 
 /-- the authenticated TTL of a fresh Secure verdict is at most `expiration − now` -/
 theorem fresh_secure_ttl {sigValid : SigOracle} {r : Request} (hnow : r.now < M)
@@ -525,7 +535,7 @@ theorem span_window {t0 now inc exp : Nat} (ht0 : t0 < M) (hnow : now < M) (hinc
 theorem step_secure (sigValid : SigOracle) (cfg : CacheConfig)
     (past : List Request) (r : Request) (v : Verdict) (fresh : Bool)
     (hs : StepSound sigValid cfg serve past r v fresh) (hsec : v.proof = .secure) (hb : Bounds r)
-    (hpair : ∀ r' ∈ past, KeyFaithful r' r ∧ Bounds r') :
+    (hpair : ∀ r' ∈ past, KeyFaithful r' r ∧ r'.now < M) :
     SecureOK sigValid r ∧ TtlOK r v := by
   obtain ⟨hnow, hinc, hexp, hwf⟩ := hb
   rcases hs with ⟨_, hv⟩ | ⟨_, r', hr', hck, t, ht, hlive, hv⟩
@@ -539,9 +549,8 @@ theorem step_secure (sigValid : SigOracle) (cfg : CacheConfig)
     rw [ht'] at h0
     simp only [Option.some.injEq] at h0
     omega
-  · obtain ⟨hkf, hb'⟩ := hpair r' hr'
+  · obtain ⟨hkf, hnow'⟩ := hpair r' hr'
     obtain ⟨hsig, hkn, hkt, hrec⟩ := hkf hck
-    obtain ⟨hnow', _, _, _⟩ := hb'
     -- the verdict served has the proof of the stored one
     have hsec' : (freshVerdict sigValid r').proof = .secure := by
       simp only [serve, entryOf] at hv
@@ -586,10 +595,10 @@ theorem cache_sound (sigValid : SigOracle) (cfg : CacheConfig) (hist : List Requ
     (hb : ∀ r ∈ hist, Bounds r) (hkey : hist.Pairwise KeyFaithful) :
     AllSecure (fun r v => SecureOK sigValid r ∧ TtlOK r v) hist
       (runHistory sigValid cfg [] hist) :=
-  allSecure_of_sound sigValid cfg serve _ KeyFaithful Bounds
+  allSecure_of_sound sigValid cfg serve _ KeyFaithful Bounds (fun r => r.now < M)
     (fun past r v fresh hs hsec hb hp => step_secure sigValid cfg past r v fresh hs hsec hb hp)
     [] hist _ (cache_provenanceG sigValid cfg serve hist)
-    (fun r hr => ⟨hb r hr, hb r hr⟩) (by simp) hkey
+    (fun r hr => ⟨hb r hr, (hb r hr).1⟩) (by simp) hkey
 
 /-! ### concrete values: non-vacuity -/
 
@@ -626,6 +635,21 @@ example :
       [recA 3600 [10, 0, 0, 1]] 1000 = .error .bogus ∧
     verifyRrsetWithDnskey acceptAll key0 .insecure sig0 nameA 1 [recA 3600 [10, 0, 0, 1]] 1000
       = .error .insecure := by
+  decide
+
+/-- **Open finding `rrsig-period-2^31-served-from-cache`: the well-formedness hypothesis of `Bounds`
+is necessary.**  `RrsigValidity::check` never compares Inception with Expiration.  For an RRSIG with
+expiration 1010 and inception 1010 + 2³¹ (a period of exactly 2³¹ s, undefined in serial arithmetic)
+a validation at 1009 is Secure (both comparisons with the clock are defined), and one second later
+the verdict is served from the cache although the clock is no longer inside the window
+(`inception ≤ 1010` is undefined) and a fresh validation says Bogus. -/
+theorem counterexample_period_2_31 :
+    let sigW : Rrsig := { sig0 with input := { sig0.input with inception := 1010 + HALF } }
+    let req : Nat → Request := fun now => ⟨[1], [(key0, .secure)], sigW, nameA, 1, [recA 3600 [10, 0, 0, 1]], now, 0⟩
+    (runHistory acceptAll {} [] [req 1009, req 1010]).map (fun o => (o.1.proof, o.1.adjustedTtl, o.2))
+      = [(.secure, some 1, true), (.secure, some 0, false)] ∧
+    (freshVerdict acceptAll (req 1010)).proof = .bogus ∧
+    ¬ ((1010 + M - (1010 + HALF)) % M < HALF) := by
   decide
 
 /-- an oracle that accepts exactly the signed data of `recs` under `sig0` (what unforgeability gives
